@@ -244,17 +244,27 @@ def check_shared_action(case):
     try:
         shared = start_action(action_type="c02:shared")
 
+        ids = []
+        bare = set(case.get("bare") or ())
+
         def worker(tid, ops):
+            def body():
+                for k, op in enumerate(ops):
+                    if op == "m":
+                        log_message(message_type="c02:m", who="t%d.%d" % (tid, k))
+                    elif op == "a":
+                        with start_action(action_type="c02:child", who="t%d.%d" % (tid, k)):
+                            pass
+                    else:
+                        ids.append(shared.serialize_task_id())
+
             def run():
-                with shared.context():
-                    for k, op in enumerate(ops):
-                        if op == "m":
-                            log_message(message_type="c02:m", who="t%d.%d" % (tid, k))
-                        elif op == "a":
-                            with start_action(action_type="c02:child", who="t%d.%d" % (tid, k)):
-                                pass
-                        else:
-                            shared.serialize_task_id()
+                if tid in bare:
+                    # a thread with no current action: each message is a task of its own, each action a new task
+                    body()
+                else:
+                    with shared.context():
+                        body()
 
             return run
 
@@ -273,17 +283,36 @@ def check_shared_action(case):
         key = (m["task_uuid"], tuple(m["task_level"]))
         require(key not in levels, "duplicate-level", lambda: "messages %d and %d share (task_uuid, task_level) %r: %r / %r" % (levels[key], i, key, msgs[levels[key]].get("who"), m.get("who")))
         levels[key] = i
-    reserved = sum(1 for ops in case["threads"] for op in ops if op == "s")
-    top = sorted(lvl[0] for (u, lvl) in levels if len(lvl) >= 1 and u == msgs[0]["task_uuid"])
+    shared_uuid = msgs[0]["task_uuid"]
+    top = sorted(lvl[0] for (u, lvl) in levels if len(lvl) >= 1 and u == shared_uuid)
     used = sorted(set(top))
-    # start .. end of the shared action: 1..n with exactly `reserved` gaps (ids that were serialised but never continued)
-    require(used[0] == 1 and len(used) + reserved == used[-1], "positions-not-contiguous", lambda: "the shared action uses positions %r with %d reserved ids" % (used, reserved))
-    inside = s.switched_inside(("_nextTaskLevel", "log", "child", "_start", "finish", "serialize_task_id"))
+    # the positions the serialised ids name: fresh ones, in the shared action
+    reserved = []
+    for tid_ in ids:
+        u, _, lvl = tid_.decode("ascii").partition("@")
+        parts = [int(x) for x in lvl.strip("/").split("/")]
+        require(u == shared_uuid and len(parts) == 1, "id-elsewhere", lambda: "serialize_task_id returned %r inside the shared action %s" % (tid_, shared_uuid))
+        require(parts[0] not in used and parts[0] not in reserved, "id-position-not-fresh", lambda: "serialize_task_id returned %r, but position %d is also used by %s" % (tid_, parts[0], "a message" if parts[0] in used else "another id"))
+        reserved.append(parts[0])
+    # start .. end of the shared action: 1..n, the ids that were serialised (never continued here) filling the gaps
+    require(sorted(used + reserved) == list(range(1, used[-1] + 1)), "positions-not-contiguous", lambda: "the shared action uses positions %r and handed out ids for %r" % (used, sorted(reserved)))
+    # what the threads without a current action logged: one-message tasks, and tasks of one empty action
+    others = {}
+    for (u, lvl), i in levels.items():
+        if u != shared_uuid:
+            others.setdefault(u, []).append((lvl, i))
+    for u, entries in others.items():
+        entries.sort()
+        first = msgs[entries[0][1]]
+        want = [(1,)] if "message_type" in first else [(1,), (2,)]
+        require([l for l, _ in entries] == want, "stray-task", lambda: "task %s logged by a thread without current action has levels %r (%r)" % (u, [l for l, _ in entries], [msgs[i].get("who") for _, i in entries]))
+    inside = s.switched_inside(("_nextTaskLevel", "log", "log_message", "child", "_start", "finish", "serialize_task_id"))
     return {"switches": len(s.switches), "switch_inside": len(inside), "max_depth": 2, "tasks": 1, "messages": len(msgs)}
 
 
 def classify_shared_action(case, info):
     labels = ["threads=%d" % len(case["threads"]), "switches=%d" % min(info["switches"], 6), "granularity:bytecode" if case.get("opcodes") else "granularity:line"]
+    labels.append("threads-without-current-action=%d" % len(case.get("bare") or ()))
     if info["switch_inside"]:
         labels.append("preempted-inside-the-action's-code")
     return info["switch_inside"] >= 1, labels
@@ -294,10 +323,11 @@ def shared_action_strategy():
 
     ops = st.lists(st.sampled_from(["m", "m", "a", "s"]), min_size=1, max_size=3)
     return st.builds(
-        lambda opc, plan, threads: sched.with_granularity({"plan": plan, "threads": threads}, opc),
+        lambda opc, plan, threads, bare: sched.with_granularity({"plan": plan, "threads": threads, "bare": sorted(b for b in bare if b < len(threads))}, opc),
         st.sampled_from([False, False, True]),
         sched.plans(max_segments=10, max_steps=20, workers=3),
         st.lists(ops, min_size=2, max_size=3),
+        st.sampled_from([[], [], [0, 1, 2], [1], [0, 2]]),
     )
 
 
@@ -306,11 +336,11 @@ def shared_action_enum_runner(mod, facet, tier, seed, shard, nshards, stats):
     from .. import sched
 
     cases = []
-    for threads in ([["m"], ["m"]], [["m", "m"], ["a"]], [["s"], ["m"]]):
+    for threads, bare in (([["m"], ["m"]], []), ([["m", "m"], ["a"]], []), ([["s"], ["m"]], []), ([["m"], ["m"]], [0, 1]), ([["m"], ["a"]], [0, 1])):
         for plan in sched.single_preemption_plans(2, 40):
-            cases.append({"plan": plan, "threads": threads})
+            cases.append({"plan": plan, "threads": threads, "bare": bare})
         for k in range(0, 200 if tier == "thorough" else 120):
-            cases.append({"opcodes": True, "plan": [[k, 0], [10**6, 1]], "threads": threads})
+            cases.append({"opcodes": True, "plan": [[k, 0], [10**6, 1]], "threads": threads, "bare": bare})
     stats.extra["enumerated_plans"] = len(cases)
     enumerate_cases(mod, facet, cases, shard, nshards, stats, exhaustive=True)
 
